@@ -677,7 +677,7 @@ fn main() {
     );
 
     // ---------------- seeded ----------------
-    let ncases = args.budget(12, 600);
+    let ncases = args.budget(24, 600);
     for ci in 0..ncases {
         let ngen = rng.range(1, 3) as usize;
         let mut next_tx = 0;
@@ -687,6 +687,46 @@ fn main() {
         cx.dist.hit(&format!("case.generations.{ngen}"));
         run_case(&mut cx, &format!("seed{} #{}", args.seed, ci), gens, picks, gaps);
     }
+    // ---------------- implementation-only stream: log rotation (known finding class) ----------------
+    let mut hits = Hits::default();
+    {
+        let dir = args.out.join("scratch");
+        fs::create_dir_all(&dir).unwrap();
+        let wal = dir.join("rotate.wal");
+        for i in 0..5 {
+            let _ = fs::remove_file(dir.join(format!("rotate.wal.{i}")));
+        }
+        let _ = fs::remove_file(&wal);
+        let cfg = tensor_chain::raft_wal::WalConfig { max_size_bytes: 150, ..tensor_chain::raft_wal::WalConfig::default() };
+        verif_clock::set(Some(2_000_000));
+        if let Ok(w) = TxWal::open_with_config(&wal, cfg.clone()) {
+            let c = DistributedTxCoordinator::new(ConsensusManager::default_config(), DistributedTxConfig::default()).with_wal(w);
+            if let Ok(tx0) = c.begin(&"coord".to_string(), &[0]) {
+                let prepared = matches!(c.record_vote(tx0.tx_id, 0, yes(0xABC)), Ok(Some(TxPhase::Prepared)));
+                // more transactions push the log past its size limit
+                for _ in 0..4 {
+                    let _ = c.begin(&"coord".to_string(), &[1, 2]);
+                }
+                drop(c);
+                if prepared {
+                    if let Ok(w2) = TxWal::open_with_config(&wal, cfg) {
+                        let c2 = DistributedTxCoordinator::new(ConsensusManager::default_config(), DistributedTxConfig::default()).with_wal(w2);
+                        if c2.recover_from_wal().is_ok() {
+                            cx.dist.hit("rotation.probe");
+                            if c2.get(tx0.tx_id).is_none() {
+                                hits.push(
+                                    "wal-rotation",
+                                    "TxWal max_size_bytes=150: a transaction logged as Prepared (all votes in, no outcome), then four more begins; after restart recover_from_wal does not bring the prepared transaction back (the log was rotated to .1 and recovery reads only the live file; reachable with the default config only past 1 GiB)",
+                                    json!({"config": "raft_wal::WalConfig{max_size_bytes:150, ..default}", "steps": "begin [0]; vote Yes -> Prepared; begin x4; restart; recover_from_wal", "prepared_tx_recovered": false}),
+                                );
+                            }
+                        }
+                    }
+                }
+            }
+        }
+        verif_clock::set(None);
+    }
     let _ = fs::remove_dir_all(args.out.join("scratch"));
     write_meta(
         &args.out,
@@ -694,6 +734,7 @@ fn main() {
             "property": "C13", "seed": args.seed, "tier": args.tier,
             "kinds": [cx.w.summary()],
             "distribution": cx.dist.json(),
+            "hits": hits.0,
             "nontrivial_rule": "a case with at least 3 coordinator calls; the coordinator is restarted from EVERY byte offset of what each generation appended to the real 2PC log",
         }),
     );
